@@ -725,6 +725,13 @@ class Program:
                         return tuple(_PURE_FUNCS_BY_NAME[_dotted(node.args[0])](x) for x in it_)
                     except Exception as e_:  # noqa: BLE001
                         return Unknown("map: %s" % e_, node)
+            if fn == "dict.fromkeys" and len(args) in (1, 2) and not node.keywords and isinstance(args[0], (tuple, list, frozenset, dict)) \
+                    and plain(args[0]):
+                try:
+                    ks_ = sorted(args[0], key=repr) if isinstance(args[0], frozenset) else list(args[0])
+                    return dict.fromkeys(ks_, args[1] if len(args) == 2 else None)
+                except TypeError:
+                    return Unknown("dict.fromkeys", node)
             # pure builtins over folded values
             if fn in _PURE_BUILTINS and not node.keywords and args and all(plain(a) for a in args) \
                     and not any(isinstance(a, ast.Starred) for a in node.args):
@@ -751,8 +758,11 @@ class Program:
                 if isinstance(tgt, FuncInfo) and tgt.cls is None and not tgt.node.decorator_list:
                     body = [st for st in tgt.node.body if not (isinstance(st, ast.Expr) and isinstance(st.value, ast.Constant))]
                     a = tgt.node.args
-                    if len(body) == 1 and isinstance(body[0], ast.Return) and body[0].value is not None \
-                            and not (a.vararg or a.kwarg or a.kwonlyargs):
+                    # ... or a straight line of single-name bindings ending in one (`def table(): a = {..}; b = {..}; return {**a, **b}`)
+                    straight = len(body) >= 1 and isinstance(body[-1], ast.Return) and body[-1].value is not None and all(
+                        (isinstance(st, ast.Assign) and len(st.targets) == 1 and isinstance(st.targets[0], ast.Name))
+                        or (isinstance(st, ast.AnnAssign) and isinstance(st.target, ast.Name) and st.value is not None) for st in body[:-1])
+                    if straight and not (a.vararg or a.kwarg or a.kwonlyargs):
                         params = [x.arg for x in a.posonlyargs + a.args]
                         defaults = dict(zip(params[-len(a.defaults):], a.defaults)) if a.defaults else {}
                         kw = {k.arg: ev(k.value) for k in node.keywords if k.arg}
@@ -767,7 +777,14 @@ class Program:
                             else:
                                 okp = False
                         if okp and all(not isinstance(v, Unknown) for v in fenv.values()):
-                            r = self.const(body[0].value, tgt.module, fenv, None, depth + 1)
+                            for st in body[:-1]:
+                                tn_ = st.targets[0].id if isinstance(st, ast.Assign) else st.target.id
+                                fenv[tn_] = self.const(st.value, tgt.module, fenv, None, depth + 1)
+                                if isinstance(fenv[tn_], Unknown):
+                                    okp = False
+                                    break
+                        if okp and all(not isinstance(v, Unknown) for v in fenv.values()):
+                            r = self.const(body[-1].value, tgt.module, fenv, None, depth + 1)
                             if not isinstance(r, Unknown):
                                 return r
             if fn:
